@@ -194,14 +194,14 @@ func cmdDrive(args []string) {
 			a := append(append([]string{}, common...), "-shard", fmt.Sprint(i), "-of", fmt.Sprint(*jobs), "-runs", fmt.Sprint(b.runs), "-out", filepath.Join(tmp, name+".json"))
 			var env []string
 			if b.engine == "sched" {
-				env = []string{"GORACE=log_path=" + filepath.Join(tmp, name+".race") + " halt_on_error=0 atexit_sleep_ms=0", "GOMAXPROCS=" + gomax[i%3]}
+				env = []string{"GORACE=log_path=" + filepath.Join(tmp, name+".race") + " halt_on_error=0 atexit_sleep_ms=0 exitcode=0", "GOMAXPROCS=" + gomax[i%3]}
 			}
 			jobsList = append(jobsList, job{name, bin, a, env})
 		}
 		for i := 0; i < b.coldRuns; i++ {
 			name := fmt.Sprintf("c%d_%d", bi, i)
 			a := append(append([]string{}, common...), "-cold", fmt.Sprint(i), "-out", filepath.Join(tmp, name+".json"))
-			env := []string{"GORACE=log_path=" + filepath.Join(tmp, name+".race") + " halt_on_error=0 atexit_sleep_ms=0", "GOMAXPROCS=" + gomax[i%3]}
+			env := []string{"GORACE=log_path=" + filepath.Join(tmp, name+".race") + " halt_on_error=0 atexit_sleep_ms=0 exitcode=0", "GOMAXPROCS=" + gomax[i%3]}
 			jobsList = append(jobsList, job{name, bin, a, env})
 		}
 	}
@@ -300,7 +300,14 @@ func cmdDrive(args []string) {
 
 	// violations
 	exit := 0
-	sort.Slice(total.Violations, func(i, j int) bool { return total.Violations[i].Replay < total.Violations[j].Replay })
+	// replay files that reproduced in a fresh process when they were written come first
+	sort.Slice(total.Violations, func(i, j int) bool {
+		a, b := total.Violations[i], total.Violations[j]
+		if a.Unverified != b.Unverified {
+			return !a.Unverified
+		}
+		return a.Replay < b.Replay
+	})
 	realVio := 0
 	seenReplay := map[string]bool{}
 	perClass := map[string]int{}
@@ -327,7 +334,11 @@ func cmdDrive(args []string) {
 				os.Remove(v.Replay) // enough examples of this class
 				continue
 			}
-			fmt.Printf("violation class=%s: %s\n", v.Class, v.Detail)
+			if v.Unverified {
+				fmt.Printf("violation class=%s (replay file did not reproduce in a fresh process when written): %s\n", v.Class, v.Detail)
+			} else {
+				fmt.Printf("violation class=%s: %s\n", v.Class, v.Detail)
+			}
 			fmt.Printf("VIOLATION property=%s replay=%s\n", v.Property, v.Replay)
 		}
 	}
